@@ -338,7 +338,7 @@ def c05_3(R):
     R.floor("writers of rto_retransmissions", n, 3)
 
 
-@rule("C05.4", ["C05"], ["E1", "E4"], "the peer window used for sending is the one most recently advertised",
+@rule("C05.4", ["C05", "C15"], ["E1", "E4"], "the peer window used for sending is the one most recently advertised",
       "VirtualSocket.last_remote_window is written only in process_incoming_message from msg.header.wnd_size (and by the constructor); congestion_controller.set_remote_window receives the same value.")
 def c05_4(R):
     F = R.facts
